@@ -22,6 +22,9 @@ type policy struct {
 	Groups    []string
 	Skip      []string
 	Preflight bool
+	// OtherOptions: upstream options that have nothing to do with who is admitted (skip_request_signing,
+	// tls_skip_verify, preserve_host), all switched on
+	OtherOptions bool
 }
 
 func (p policy) yamlOptions(indent string) string {
@@ -41,6 +44,9 @@ func (p policy) yamlOptions(indent string) string {
 	list("skip_auth_regex", p.Skip)
 	if p.Preflight {
 		fmt.Fprintf(&sb, "%sskip_auth_preflight: true\n", indent)
+	}
+	if p.OtherOptions {
+		fmt.Fprintf(&sb, "%sskip_request_signing: true\n%stls_skip_verify: true\n%spreserve_host: true\n%sflush_interval: 1s\n", indent, indent, indent, indent)
 	}
 	return sb.String()
 }
